@@ -22,10 +22,13 @@ def hashFn (mode : Nat) (k : Nat) : Nat :=
 structure Entry where
   t : T
   locked : Bool := false
+  alloc : Nat := 0
+  movedFrom : Bool := false      -- the object still exists (and keeps its allocator) but holds no table
 
 structure St where
   cfg : Cfg Nat := { S := 4, M := 65536, hash := hashFn 0, simple := true, nothrowMove := true, hpLimit := 40 }
   bumpOnRead : Bool := false
+  pol : Policy := ⟨false, false, false⟩
   tabs : Array (Option Entry) := Array.replicate 8 none
   wires : Array (Option (Wire Nat Nat)) := Array.replicate 8 none
 
@@ -144,8 +147,17 @@ def iterBwd (c : Cfg Nat) (t : T) : String :=
 
 def withTab (st : St) (id : Nat) (f : Entry → St × String) : St × String :=
   match st.tabs[id]? with
-  | some (some e) => f e
+  | some (some e) => if e.movedFrom then (st, "bad-table") else f e
   | _ => (st, "bad-table")
+
+/-- a live (not moved-from) source object -/
+def srcTab (st : St) (id : Nat) : Option Entry :=
+  match st.tabs[id]? with
+  | some (some e) => if e.movedFrom then none else some e
+  | _ => none
+
+def markMoved (st : St) (id : Nat) (e : Entry) : St :=
+  { st with tabs := st.tabs.setIfInBounds id (some { e with movedFrom := true, locked := false }) }
 
 def putTab (st : St) (id : Nat) (e : Entry) : St := { st with tabs := st.tabs.setIfInBounds id (some e) }
 
@@ -163,29 +175,69 @@ def modelLine (st : St) (ws : List String) : St × String :=
     match id.toNat?, n.toNat? with
     | some id, some n => (putTab st id { t := Table.init c n }, "ok")
     | _, _ => (st, "bad-op")
+  | ["apol", _, bits] =>
+    match bits.toNat? with
+    | some b => ({ st with pol := ⟨b % 2 == 1, (b / 2) % 2 == 1, (b / 4) % 2 == 1⟩ }, "ok")
+    | none => (st, "bad-op")
+  | ["newa", id, n, a] =>
+    match id.toNat?, n.toNat?, a.toNat? with
+    | some id, some n, some a => (putTab st id { t := Table.init c n, alloc := a }, "ok")
+    | _, _, _ => (st, "bad-op")
+  | ["copya", d, s_, a] =>
+    match d.toNat?, s_.toNat?, a.toNat? with
+    | some d, some s_, some a =>
+      match srcTab st s_ with
+      | some e =>
+        let o := Obj.copyCtorA ⟨e.t, e.alloc⟩ a
+        (putTab st d { t := o.t, alloc := o.alloc }, "ok")
+      | _ => (st, "bad-table")
+    | _, _, _ => (st, "bad-op")
+  | ["movea", d, s_, a] =>
+    match d.toNat?, s_.toNat?, a.toNat? with
+    | some d, some s_, some a =>
+      match srcTab st s_ with
+      | some e =>
+        let o := Obj.moveCtorA ⟨e.t, e.alloc⟩ a
+        let st := putTab st d { t := o.t, alloc := o.alloc }
+        (markMoved st s_ e, "ok")
+      | _ => (st, "bad-table")
+    | _, _, _ => (st, "bad-op")
+  | ["allocid", id] =>
+    match id.toNat? with
+    | some id => withTab st id fun e => (st, s!"ok a={e.alloc} own={e.alloc} mism=0")
+    | none => (st, "bad-op")
   | ["copy", d, s_] =>
     match d.toNat?, s_.toNat? with
     | some d, some s_ =>
-      match st.tabs[s_]? with
-      | some (some e) => (putTab st d { t := e.t.copy }, "ok")
+      match srcTab st s_ with
+      | some e =>
+        let o := match st.tabs[d]? with
+          | some (some de) => Obj.copyAssign st.pol ⟨de.t, de.alloc⟩ ⟨e.t, e.alloc⟩     -- assignment
+          | _ => Obj.copyCtor ⟨e.t, e.alloc⟩                                           -- construction
+        (putTab st d { t := o.t, alloc := o.alloc }, "ok")
       | _ => (st, "bad-table")
     | _, _ => (st, "bad-op")
   | ["move", d, s_] =>
     match d.toNat?, s_.toNat? with
     | some d, some s_ =>
-      match st.tabs[s_]? with
-      | some (some e) =>
-        let st := putTab st d { t := e.t }
-        ({ st with tabs := st.tabs.setIfInBounds s_ none }, "ok")
+      match srcTab st s_ with
+      | some e =>
+        let o := match st.tabs[d]? with
+          | some (some de) => Obj.moveAssign st.pol ⟨de.t, de.alloc⟩ ⟨e.t, e.alloc⟩
+          | _ => Obj.moveCtor ⟨e.t, e.alloc⟩
+        let st := putTab st d { t := o.t, alloc := o.alloc }
+        (markMoved st s_ e, "ok")
       | _ => (st, "bad-table")
     | _, _ => (st, "bad-op")
   | ["swap", a, b] =>
     match a.toNat?, b.toNat? with
     | some a, some b =>
-      match st.tabs[a]?, st.tabs[b]? with
-      | some (some ea), some (some eb) =>
-        let (ta, tb) := swapTables ea.t eb.t
-        (putTab (putTab st a { t := ta }) b { t := tb }, "ok")
+      match srcTab st a, srcTab st b with
+      | some ea, some eb =>
+        if Obj.swapOK st.pol ⟨ea.t, ea.alloc⟩ ⟨eb.t, eb.alloc⟩ then
+          let (oa, ob) := Obj.swap st.pol ⟨ea.t, ea.alloc⟩ ⟨eb.t, eb.alloc⟩
+          (putTab (putTab st a { t := oa.t, alloc := oa.alloc }) b { t := ob.t, alloc := ob.alloc }, "ok")
+        else (st, "bad-swap")      -- undefined behaviour in C++: the generator never asks for it
       | _, _ => (st, "bad-table")
     | _, _ => (st, "bad-op")
   | [op, id, a] =>
